@@ -158,7 +158,7 @@ class EnsureHarness:
             if stop is not None:
                 stop()
                 emit('stop_returned', target.is_running(), target._sim_runners)
-            emit('max_runners', max(lp._sim_max_runners for lp in s.loops))
+            emit('max_runners', s.max_runners_seen)
 
         return simrt.execute(main, strategy, max_steps=150000, watchdog=60.0)
 
@@ -259,7 +259,7 @@ class C17(Check):
                 st[f'outcome_{kind}'] += 1
             st[f'branch_{"own" if own else mode}'] += 1
         mr = [e for e in log if e[0] == 'max_runners']
-        if any(lp._sim_max_runners > 1 for lp in r.sched.loops) or (mr and mr[0][1] > 1):
+        if r.sched.max_runners_seen > 1 or (mr and mr[0][1] > 1):
             res.violate('C17:loop-run-twice', 'an event loop was being run by two threads at once')
         for e in log:
             if e[0] == 'ret' and e[2] in ('runtime', 'other') and mode != 'closed':
